@@ -256,4 +256,19 @@ CHECKS['C18'] = {
     'level_note': 'Exhaustive only over the stated small bounds; the facade marshals values and calls TupleBuilder / Tuple / TupleReader unchanged.',
 }
 
+CHECKS['C14'] = {
+    'level': 'exploration',
+    'rule': '2-8 client threads share one Database and issue autocommit statements concurrently (pool sizes 1, 2, 8, 32; 20-150 statements per thread; seeded pacing; engine-side yield points armed with a per-run seed at page acquisition, '
+            'job start and between the commit steps). Sampled mix in the registered run: concurrent readers of a populated table (the only mix the unchanged tree survives); mixes with writers run as witnesses, one per process. '
+            'Monitors: completion under the no-progress hang rule, error classifier, impossible-read detector (unknown or duplicated row ids), final contents = acknowledged inserts. Non-trivial = every run with >= 2 threads; distinct = hash of (seed, index).',
+    'legs': {'quick': [{'flavour': 'prod', 'shards': 16}, {'flavour': 'prod', 'shards': 3, 'engine': 'C14W', 'timeout': 600}],
+             'thorough': [{'flavour': 'prod', 'shards': 16}, {'flavour': 'prod', 'shards': 3, 'engine': 'C14W', 'timeout': 600}]},
+    'min_evaluations': {'quick': 300, 'thorough': 6000},
+    'min_counters': {'quick': {'overlapping_calls_observed': 5000, 'yield_perturbations_total': 1000}, 'thorough': {'overlapping_calls_observed': 100000}},
+    'assumptions': ['schedules are sampled (pacing + yield injection), not enumerated', 'hang = no harness call returned, no I/O, no yield point passed and < 0.3 s CPU during 6 s after the deadline; a slow but progressing run is inconclusive'],
+    'technique': 'stress with seeded schedule perturbation (engine-side yield points) and runtime monitors: hang watchdog, error classifier, exactly-once / no-loss checker over acknowledged unique values; ThreadSanitizer leg in the thorough tier',
+    'level_text': '320 (quick) / 6400 (thorough) multi-threaded runs; every call must return, fail only for permitted reasons, and leave the acknowledged data. Writers + concurrent clients deadlock on the unchanged tree (open findings).',
+    'level_note': 'A clean run is not freedom from races; loom / shuttle style exhaustive schedule exploration is a different technique family and is not used.',
+}
+
 NOT_APPLICABLE = [{'property_id': c, 'reason': 'check not built yet in this session (work in progress, see DESIGN.md)'} for c in ALL if c not in CHECKS]
